@@ -119,7 +119,11 @@ def generate(prop, seed, tier):
                     continue
                 terms = []
                 for _ in range(g.randrange(0, 2)):
-                    terms.append({'label': g.choice(['t0', 't1', '<X,Y>', '<S,S>']) if g.random() < 0.5 else tag + 't', 'att': []})
+                    # terminal names: shared ones, names that look like paired nonterminals, and names that are
+                    # *nonterminals of the other grammar* (legal: only terminal/terminal clashes are conflicts)
+                    other_nts = [n for n in (nts2 if tag == 'a' else nts1) if n not in nts and n != 'S']
+                    pool = ['t0', 't1', '<X,Y>', '<S,S>'] + other_nts
+                    terms.append({'label': g.choice(pool) if g.random() < 0.6 else tag + 't', 'att': []})
                 rules.append({'lhs': g.choice(lhss), 'skel': si, 'labels': labs, 'terms': terms,
                               'edge_order': g.perm(len(sk['slots']) + len(terms)), 'node_order': g.perm(len(sk['nodes']))})
         g.shuffle(rules)
